@@ -10,3 +10,21 @@ package fr
 //@   requires len(str) == 9 && s_isdigits(str)
 //@   ensures [key] len(r) == 2 && (s_byte(r, 0) - 48) * 10 + (s_byte(r, 1) - 48) == (12 + 3 * (dval(str, 9) % 97)) % 97
 //@   ensures [digits] s_byte(r, 0) >= 48 && s_byte(r, 0) <= 57 && s_byte(r, 1) >= 48 && s_byte(r, 1) <= 57
+//
+// The whole VAT rule: eleven digits, the first two being the key of the last nine.
+//@ pin taxCodeVATRegexp regexp.MustCompile(`^\d{11}$`)
+//@ pin taxCodeSIRENRegexp regexp.MustCompile(`^\d{9}$`)
+//@ global taxCodeVATRegexp != nil && (forall s string :: reMatch(taxCodeVATRegexp, s) <==> len(s) == 11 && digitsIn(s, 0, 11))
+//@ global taxCodeSIRENRegexp != nil && (forall s string :: reMatch(taxCodeSIRENRegexp, s) <==> len(s) == 9 && digitsIn(s, 0, 9))
+//@ func validateVATTaxCode(value) (err)
+//@   bytes
+//@   let code = unboxed(value, cbc.Code)
+//@   ensures [iff] typeis(value, cbc.Code) && code != "" ==> (err == nil <==> len(code) == 11 && digitsIn(code, 0, 11) && (s_byte(code, 0) - 48) * 10 + (s_byte(code, 1) - 48) == (12 + 3 * (dval(s_substr(code, 2, 11), 9) % 97)) % 97)
+//@   ensures [skip] !typeis(value, cbc.Code) || code == "" ==> err == nil
+//
+// SIREN: nine digits, the ninth being the Luhn check digit of the first eight.
+//@ func validateSIRENTaxCode(value) (err)
+//@   bytes
+//@   let code = unboxed(value, cbc.Code)
+//@   ensures [iff] typeis(value, cbc.Code) && code != "" ==> (err == nil <==> len(code) == 9 && digitsIn(code, 0, 9) && s_byte(code, 8) - 48 == common.luhnCheck(s_substr(code, 0, 8), 8))
+//@   ensures [skip] !typeis(value, cbc.Code) || code == "" ==> err == nil
